@@ -1045,6 +1045,45 @@ def gen_writer():
         out += ["  | %s =>" % ctor,
                 "    let (st, stack, r) := %s w.st w.stack" % lean,
                 "    ({ w with st := st, stack := stack }, r, none)"]
+    # the exported entry points: each hands its arguments to the Context method unchanged, except the
+    # boolean flag (`!= 0`) and the packed (status, pointer) result of the string allocation
+    entry = [("shopify_function_output_new_bool", ["context.write_bool(P0 != 0)"]),
+             ("shopify_function_output_new_null", ["context.write_nil()"]),
+             ("shopify_function_output_new_i32", ["context.write_i32(P0)"]),
+             ("shopify_function_output_new_f64", ["context.write_f64(P0)"]),
+             ("shopify_function_output_new_utf8_str",
+              ["let (result, ptr) = context.allocate_utf8_str(P0); ((result as DoubleUsize) << usize::BITS) | ptr as DoubleUsize",
+               "let (result, ptr) = context.allocate_utf8_str(P0); ((result as DoubleUsize) << usize::BITS) | (ptr as DoubleUsize)"]),
+             ("shopify_function_output_new_object", ["context.start_object(P0)"]),
+             ("shopify_function_output_finish_object", ["context.finish_object()"]),
+             ("shopify_function_output_new_array", ["context.start_array(P0)"]),
+             ("shopify_function_output_finish_array", ["context.finish_array()"]),
+             ("shopify_function_output_new_interned_utf8_str", ["context.write_interned_utf8_str(P0)"])]
+    for fn, bodies in entry:
+        ps, b = body(fn)
+        ok = False
+        for inner in bodies:
+            # a closure, or the method path itself when no argument is involved
+            tpls = ["Context::with_mut(|context| { %s })" % inner]
+            mm = re.fullmatch(r"context\.(\w+)\(\)", inner)
+            if mm:
+                tpls.append("Context::with_mut(Context::%s)" % mm.group(1))
+            mm = re.fullmatch(r"context\.(\w+)\(P0\)", inner)
+            if mm:
+                tpls.append("Context::with_mut(|context| context.%s(P0))" % mm.group(1))
+            tpl_params = ["P0"]
+            ok = ok or any(same_shape(b, t.replace("P0", "arg"), ps, ["arg"]) for t in tpls)
+        if not ok:
+            raise ExtractError("%s changed shape: %s" % (fn, canon(b, ps)[:240]))
+    ps, b = body("write_interned_utf8_str")
+    want = ("let string_data = self.string_interner.get(id); let len = string_data.len(); let ptr = string_data.as_ptr(); "
+            "let (result, output_ptr) = self.allocate_utf8_str(len); if result != WriteResult::Ok { return result; } "
+            "unsafe { std::ptr::copy_nonoverlapping(ptr, output_ptr as *mut u8, len) }; WriteResult::Ok")
+    if not same_shape(b, want, ps, ["id"]):
+        raise ExtractError("Context::write_interned_utf8_str changed shape: %s" % canon(b, ps)[:240])
+    out += ["/-- the exported write entry points whose bodies were recognised (flag `!= 0`, arguments passed through,",
+            "    packed (status, pointer) result, interned string = allocate + copy of the interned bytes) -/",
+            "def writerEntryPoints : List (List Nat) := [%s]" % ", ".join(name_lit(fn) for fn, _ in entry)]
     out.append("end SfVerif.Gen")
     return "\n".join(out) + "\n"
 
@@ -1187,7 +1226,9 @@ def gen_fns_nanbox(const_names):
         fvp, fv = rs2lean.find_fn(core, "from_val", "Tag")
         fv_norm = re.sub(r'"[^"]*"', "S", fv)
         fv_params = param_names(fvp)
-        if not same_shape(fv_norm, "match u8::try_from(v) { Ok(v) => Self::from_repr(v).ok_or_else(|| format!(S).into()), Err(_) => Err(format!(S).into()), }", fv_params, ["v"]):
+        if not any(same_shape(fv_norm, tpl, fv_params, ["v"]) for tpl in (
+                "match u8::try_from(v) { Ok(v) => Self::from_repr(v).ok_or_else(|| format!(S).into()), Err(_) => Err(format!(S).into()), }",
+                "match u8::try_from(v) { Ok(b) => Self::from_repr(b).ok_or_else(|| format!(S).into()), Err(_) => Err(format!(S).into()), }")):
             raise ExtractError("Tag::from_val is no longer `u8::try_from(v)` then `Self::from_repr(v)` (else Err)")
         if not re.search(r"#\[derive\([^)]*strum::FromRepr[^)]*\)\]\s*#\[repr\(u8\)\]\s*enum\s+Tag\b", core):
             raise ExtractError("enum Tag is no longer #[derive(strum::FromRepr)] #[repr(u8)]")
